@@ -98,34 +98,56 @@ def correspondence(ctx):
     cases = [c["case"] for c in fc.load_corpus(ID)] + _cases(ctx, ctx.n(110, 1500))
     terms, idx = [], []
     skipped = 0
-    for c in cases:
-        obs = fc.run_case(c, observe_result=True)
+    def take(c, obs, origin):
+        nonlocal skipped
         if obs.get("exn_type") == "RuntimeError":
             skipped += 1
-            continue
+            return
         if obs["exn"] is not None:
             res.disagreements.append({"name": "fit raised {}: {}".format(obs.get("exn_type"), obs.get("exn_text")),
-                                      "kind": "fit", "case": c})
-            continue
+                                      "kind": origin["kind"] if origin["kind"] == "history" else "fit", "case": origin})
+            return
+        if not (obs["rec"]["polyfit"] or obs["rec"]["curve_fit"]):
+            res.disagreements.append({"name": "a fit returned without calling numpy.polyfit / scipy curve_fit",
+                                      "kind": origin["kind"] if origin["kind"] == "history" else "fit", "case": origin})
+            return
         res.evaluations += 1
         res.count("model:" + c["model"] + (":deg{}".format(c["deg"]) if c["model"] == "polynomial" else ""))
-        res.count("mode:" + c["mode"])
+        res.count("mode:" + (c["mode"] if origin is c else "history:" + origin["holder"]))
         res.count("xrange:" + ("pair" if isinstance(c["xrange"], list) else "whole"))
         res.count("yerr:" + ("none" if c["yerr"] is None else "per-point" if isinstance(c["yerr"], list) else "common")
                   + (":zeros-outside-range" if c.get("pattern") else ""))
         r = obs["result"]
         flat = [r["scalar"], r["list"], r["array"], r["table"], r["residuals"], r["chi2"], r["pcorr"], r["getcorr"],
                 r["getcov"], r["printed"], obs["errs"], obs["params"]]
+        kind = "history" if origin["kind"] == "history" else "fit"
         if not fc.finite(flat):
-            res.disagreements.append({"name": "non-finite number in a fit result", "kind": "fit", "case": c})
-            continue
+            res.disagreements.append({"name": "non-finite number in a fit result", "kind": kind, "case": origin})
+            return
         if r["list_type"] != "list" or r["array_type"] != "ndarray" or r["getitem"] != obs["params"]:
-            res.disagreements.append({"name": "fit_function(list/array) container type or result[i]", "kind": "fit", "case": c})
-            continue
+            res.disagreements.append({"name": "fit_function(list/array) container type or result[i]", "kind": kind, "case": origin})
+            return
         if len(obs["params"]) >= 3 or c["yerr"] is not None:
-            res.nontrivial.add(core.canonical_key("r", c))
+            res.nontrivial.add(core.canonical_key("r", [c, origin.get("steps")]))
         terms.append(fc.coq_res_case(c, obs))
-        idx.append(c)
+        idx.append(origin)
+
+    for c in cases:
+        if c["kind"] == "history":
+            continue
+        take(c, fc.run_case(c, observe_result=True), c)
+    hists = [c for c in cases if c["kind"] == "history"]
+    while len(hists) < ctx.n(12, 150):
+        h = fc.gen_history(ctx.rng)
+        if h:
+            hists.append(h)
+    for h in hists:
+        if not fc.history_in_domain(h):
+            continue
+        for st in h["steps"]:
+            res.count("history:step:" + st[0])
+        for k, cur, obs in fc.run_history(h, observe_result=True):
+            take(cur, obs, h)
     res.traces = res.evaluations
     ctx.notes.append("curve fits skipped because scipy did not converge: {}".format(skipped))
     res.rule = ("the fits of C06 (polynomial models deg 1-5, user model a*x^2+b*x, exponential, gaussian; every way of passing the "
@@ -133,7 +155,9 @@ def correspondence(ctx):
                 "y-uncertainty 0). For each result the popt / pcov returned by numpy / scipy are recorded and the Coq model recomputes "
                 "from them: fit_function at 5 points (a data point, the middle, outside both ends, 0) called with a scalar, a list and an "
                 "array, all residuals, chi-squared, ndof, uncertainties^2 = diagonal, reported correlation matrix, get_correlation and "
-                "get_covariance for every ordered pair of parameter objects, the matrix printed by str(result). non-trivial = at least 3 "
+                "get_covariance for every ordered pair of parameter objects, the matrix printed by str(result). Plus histories on one "
+                "XYDataSet / MeasurementArray pair (fit, edit uncertainties or a value in place, fit again, alternate two requests): every "
+                "result of the history is checked against the data as they are at that call. non-trivial = at least 3 "
                 "parameters or y-uncertainties present (distinct by content)")
     res.samples = cases[:2]
     shards, index = [], []
@@ -149,7 +173,7 @@ def correspondence(ctx):
             continue
         for i in bad[0]:
             res.disagreements.append({"name": "Model.FitCases.check_res vs XYFitResult / fit_function / get_correlation",
-                                      "kind": "fit", "case": idx[base + i]})
+                                      "kind": "history" if idx[base + i]["kind"] == "history" else "fit", "case": idx[base + i]})
     return res
 
 
@@ -158,10 +182,26 @@ def close(a, b, rel, atol=0.0):
     return abs(a - b) <= rel * (abs(a) + abs(b)) + atol
 
 
-def check_oracle(case):
+def check_history_oracle(case):
+    """every result of a history on one data-set object is self-consistent for the data as they are at that call"""
+    if not fc.history_in_domain(case):
+        return None
+    nfit = 0
+    for k, cur, obs in fc.run_history(case, observe_result=True):
+        nfit += 1
+        why = check_oracle(cur, obs)
+        if why:
+            return "fit number {} on the same data-set object (step {}, after in-place edits {}): {}".format(
+                nfit, k, [st[0] for st in case["steps"][:k] if st[0] != "fit"], why)
+    return None
+
+
+def check_oracle(case, obs=None):
+    if case["kind"] == "history":
+        return check_history_oracle(case)
     if not fc.in_domain(case):
         return None
-    obs = fc.run_case(case, observe_result=True)
+    obs = obs or fc.run_case(case, observe_result=True)
     if obs.get("exn_type") == "RuntimeError":
         return None
     if obs["exn"] is not None:
@@ -199,7 +239,12 @@ def check_oracle(case):
                 .format(r["chi2"], sum(1 for p in pts if p[3] > 0), chi2))
     # one covariance matrix
     rec = obs["rec"]
-    raw = rec["polyfit"][-1] if rec["polyfit"] else rec["curve_fit"][-1]
+    raw = rec["polyfit"][-1] if rec["polyfit"] else rec["curve_fit"][-1] if rec["curve_fit"] else None
+    if raw is None:
+        # no fit routine was observed for this call: the one covariance matrix is read off the reported matrix
+        if not fc.finite([errs, r["pcorr"]]) or any(e <= 0 for e in errs):
+            return None
+        raw = {"popt": params, "pcov": [[r["pcorr"][i][j] * errs[i] * errs[j] for j in range(n)] for i in range(n)]}
     cov = raw["pcov"]
     if not fc.finite(cov) or any(cov[i][i] <= 0 for i in range(n)):
         return None
@@ -242,7 +287,11 @@ def _fresh_cases(ctx):
             c = _zero_yerr_outside(rng)
             if c:
                 yield c
-        elif r < 0.65:
+        elif r < 0.25:
+            c = fc.gen_history(rng)
+            if c:
+                yield c
+        elif r < 0.7:
             c = fc.gen_poly_case(rng)
             if fc.well_posed_poly(c):
                 yield c
@@ -268,13 +317,20 @@ def search(ctx, suspects, budget):
         why = check_oracle(case)
         if why:
             first = fc.signature(why)
-            small = fc.shrink_case(case, lambda c: fc.signature(check_oracle(c)) == first)
+            shrink = fc.shrink_history if case["kind"] == "history" else fc.shrink_case
+            small = shrink(case, lambda c: fc.signature(check_oracle(c)) == first)
+            if small["kind"] == "history" and [st[0] for st in small["steps"]] == ["fit"]:
+                # no history is needed: report the plain single fit
+                single = dict(fc.history_states(small)[0][2])
+                single.pop("history_step", None)
+                if check_oracle(single):
+                    small = fc.shrink_case(single, lambda c: check_oracle(c) is not None)
             why = check_oracle(small) or why
             sig = fc.signature(why)
             if sig in seen:
                 continue
             seen.add(sig)
-            out.append(Violation(ID, "fit", small, why))
+            out.append(Violation(ID, "history" if small["kind"] == "history" else "fit", small, why))
     ctx.notes.append("oracle: {} fit results recomputed with numpy-free code".format(n))
     return out
 
